@@ -2,6 +2,7 @@ package main
 
 import (
 	"fmt"
+	"go/constant"
 	"go/token"
 	"go/types"
 	"sort"
@@ -46,6 +47,7 @@ func (g *gen) havocAllHeap(reason string) {
 }
 
 func (g *gen) call(instr ssa.Instruction, c *ssa.CallCommon, pos token.Pos) Val {
+	g.curCall = c
 	var args []Val
 	for _, a := range c.Args {
 		args = append(args, g.val(a))
@@ -104,6 +106,13 @@ func (g *gen) call(instr ssa.Instruction, c *ssa.CallCommon, pos token.Pos) Val 
 	if callee == nil {
 		// dynamic call through a function value
 		g.callSiteClauses("<dynamic>", args, c, pos)
+		// every call through a function value is recorded in the ghost log `dyncall`
+		g.emitLog(g.specEnvHere(), &EmitSpec{Log: "dyncall"})
+		if g.ctr != nil && g.ctr.DynCallsFrame {
+			g.assumed["calls through function values in "+g.key+" are assumed to leave the modelled state unchanged (dyncalls_frame)"] = true
+			g.tick()
+			return g.resultVal(sig, func(i int, t types.Type) Val { return g.freshVal("ret_dyn", t) })
+		}
 		g.havocAllHeap("dynamic call")
 		g.tick()
 		return g.resultVal(sig, func(i int, t types.Type) Val { v := g.freshVal("ret_dyn", t); g.notePtr(v); return v })
@@ -111,6 +120,12 @@ func (g *gen) call(instr ssa.Instruction, c *ssa.CallCommon, pos token.Pos) Val 
 	key := funcKey(callee)
 	if !g.e.inRepo(callee) {
 		key = extKey(callee)
+	}
+	if key == "sync.(*WaitGroup).Wait" && len(g.pendingGo) > 0 {
+		for _, f := range g.pendingGo {
+			f()
+		}
+		g.pendingGo = nil
 	}
 	var recv Val
 	cargs := args
@@ -309,6 +324,14 @@ func (g *gen) applyContractEnv(ctr *Contract, key string, sig *types.Signature, 
 				break
 			}
 			g.frameCheckPlace(p, pos, "call "+short+" assigns "+a.String())
+			if p.Kind == plField && p.Ref == "*" {
+				g.heapHavoc(fieldKey(p.Struct, p.Field))
+				continue
+			}
+			if p.Kind == plField && p.Field == "*" {
+				g.storeStruct(p.Ref, p.Elem, g.freshVal("havoc_obj", p.Elem).T)
+				continue
+			}
 			if p.Kind == plMap {
 				ks, vs, ds, vsrt := g.mapSorts(p.MapT)
 				for _, kk := range []struct{ key, srt, inner string }{{mapDomKey(ks, vs), ds, arr(ks, "Bool")}, {mapValKey(ks, vs), vsrt, arr(ks, vs)}} {
@@ -625,6 +648,13 @@ func (g *gen) intrinsic(key string, callee *ssa.Function, args []Val, pos token.
 				eq(r, app("str.++", args[2].T, app("str.substr", args[0].T, app("str.len", args[1].T), app("-", app("str.len", args[0].T), app("str.len", args[1].T)))))))
 			return strVal(r), true
 		}
+	case "fmt.Sprintf":
+		// a constant format made of literal text and %s/%v verbs applied to string operands is a concatenation
+		if len(callee.Signature.Params().At(0).Name()) >= 0 {
+			if v, ok := g.sprintfConcat(g.curCall); ok {
+				return v, true
+			}
+		}
 	case "strings.EqualFold":
 	case "strconv.Itoa":
 		return strVal(ite(app(">=", args[0].T, "0"), app("str.from_int", args[0].T), app("str.++", "\"-\"", app("str.from_int", app("-", args[0].T))))), true
@@ -860,4 +890,110 @@ func (g *gen) frameCheckKeys(keys map[string]bool, pos token.Pos, callee string)
 	}
 	sort.Strings(ks)
 	g.oblige("frame", "call "+callee+" has no assigns clause (may write "+strings.Join(ks, ",")+")", "false", pos, g.frameProps)
+}
+
+// varargsOf recovers the operands packed into a variadic []any argument built by the compiler
+// (new [n]any; &t[i]; store; slice t[:]) when the pattern is syntactically evident.
+func varargsOf(v ssa.Value) ([]ssa.Value, bool) {
+	sl, ok := v.(*ssa.Slice)
+	if !ok || sl.Low != nil || sl.High != nil {
+		return nil, false
+	}
+	al, ok := sl.X.(*ssa.Alloc)
+	if !ok {
+		return nil, false
+	}
+	at, ok := al.Type().(*types.Pointer).Elem().Underlying().(*types.Array)
+	if !ok {
+		return nil, false
+	}
+	out := make([]ssa.Value, at.Len())
+	for _, ref := range *al.Referrers() {
+		ia, ok := ref.(*ssa.IndexAddr)
+		if !ok {
+			continue
+		}
+		c, ok := ia.Index.(*ssa.Const)
+		if !ok {
+			return nil, false
+		}
+		for _, r2 := range *ia.Referrers() {
+			if st, ok := r2.(*ssa.Store); ok && st.Addr == ssa.Value(ia) {
+				val := st.Val
+				if mi, ok := val.(*ssa.MakeInterface); ok {
+					val = mi.X
+				}
+				out[c.Int64()] = val
+			}
+		}
+	}
+	for _, o := range out {
+		if o == nil {
+			return nil, false
+		}
+	}
+	return out, true
+}
+
+func (g *gen) sprintfConcat(c *ssa.CallCommon) (Val, bool) {
+	if c == nil || len(c.Args) != 2 {
+		return Val{}, false
+	}
+	fc, ok := c.Args[0].(*ssa.Const)
+	if !ok || fc.Value == nil {
+		return Val{}, false
+	}
+	format := constant.StringVal(fc.Value)
+	ops, ok := varargsOf(c.Args[1])
+	if !ok {
+		if cst, isC := c.Args[1].(*ssa.Const); !isC || cst.Value != nil {
+			return Val{}, false
+		}
+	}
+	var parts []string
+	lit := ""
+	k := 0
+	for i := 0; i < len(format); i++ {
+		if format[i] != '%' {
+			lit += string(format[i])
+			continue
+		}
+		if i+1 >= len(format) {
+			return Val{}, false
+		}
+		i++
+		switch format[i] {
+		case '%':
+			lit += "%"
+		case 's', 'v':
+			if k >= len(ops) {
+				return Val{}, false
+			}
+			b, isBasic := ops[k].Type().Underlying().(*types.Basic)
+			if !isBasic || b.Info()&types.IsString == 0 {
+				return Val{}, false
+			}
+			if lit != "" {
+				parts = append(parts, smtString(lit))
+				lit = ""
+			}
+			parts = append(parts, g.val(ops[k]).T)
+			k++
+		default:
+			return Val{}, false
+		}
+	}
+	if k != len(ops) {
+		return Val{}, false
+	}
+	if lit != "" {
+		parts = append(parts, smtString(lit))
+	}
+	switch len(parts) {
+	case 0:
+		return strVal(`""`), true
+	case 1:
+		return strVal(parts[0]), true
+	}
+	return strVal(app("str.++", parts...)), true
 }
